@@ -105,6 +105,16 @@ func (s *serverSocket) PingTimeout() time.Duration { return s.pingTimeout }
 func (s *serverSocket) upgradeTo(t ServerTransport, c *transport.Callbacks) {
 	s.debug.Log("UpgradeTo", t.Name())
 
+	// The socket may have been closed while the upgrade was in progress (the UPGRADE packet
+	// arrives after the close). Nothing would ever close the new transport then, and the
+	// client, which has already switched to it, would never learn about the close.
+	select {
+	case <-s.closeChan:
+		t.Close()
+		return
+	default:
+	}
+
 	c.Set(s.onPacket, s.onTransportClose)
 
 	s.transportMu.Lock()
